@@ -182,7 +182,9 @@ def gen_rich_doc(rng, force=()):
             body.append('<div style="break-before:page"></div>')
     links = ''.join(f'<a href="#{a}">{a}</a> ' for a in rng.sample(anchors, min(len(anchors), 2)))
     body.append(f'<p>{links}<a href="http://x.org/">x</a></p>')
-    html = ('<html lang="en"><head><title>doc</title><meta name="author" content="c19"><style>' + ''.join(css) +
+    html = ('<html lang="en"><head><title>doc</title><meta name="author" content="c19"><meta name="author" content="second author">'
+            '<meta name="keywords" content="alpha, beta, gamma, delta"><meta name="description" content="d">'
+            '<meta name="dcterms.created" content="2020-01-02T03:04:05Z"><style>' + ''.join(css) +
             '</style></head><body>' + ''.join(body) + '</body></html>')
     return html, features
 
